@@ -19,21 +19,27 @@ MANIFEST = dict(
          "backward_pass (with/without rescaling) and ImportanceFlowProposal draw / compute_meta_proposal_samples / update_log_q: "
          "for every lawful transform (inverse pair with opposite log-Jacobians) the density attached to a generated point equals "
          "the density computed forwards at that point, with an alternative latent distribution the base term is that "
-         "distribution's density, and CompositeTransform stacks of any length of lawful layers are lawful; affine coupling layers "
-         "with arbitrary conditioner functions, elementwise affine layers and permutations are proved lawful (over any field; over "
-         "R the reported log-Jacobian equals log|prod s|). Tie: for fresh, randomly perturbed, briefly trained and reset tiny "
-         "RealNVP/MAF/NSF flows (float32 and float64, option grid) and for both samplers' proposals the harness reads the "
-         "primitives (base log-density, transform log|det|, rescaling log-Jacobian, alternative density) from the real torch / "
-         "numpy objects at generated points, sends them as exact rationals to the Lean model and compares what the nessai "
-         "wrappers return with the model's composition (rel. tolerance 1e-4 float32 / 1e-9 float64). The oracle checks on the "
-         "real outputs: inverse(forward(x)) = x, log_prob(sample) = reported log-density, array-level interface = torch model, "
+         "distribution's density, and CompositeTransform stacks of any length of lawful layers are lawful. Proved lawful, for "
+         "arbitrary conditioner functions and every dimension: affine coupling layers, masked affine autoregressive (MAF/MADE) "
+         "layers with the literal sweep-loop inverse, lower/upper triangular affine maps and the LU linear layer (forward = "
+         "L(Ux)+b as matrix products), elementwise affine layers (actnorm, batch norm in eval mode) and permutations; hence "
+         "RealNVP stacks (linear_transform None/permutation/lu) and MAF stacks of any depth (over any field; over R the reported "
+         "log-Jacobians equal log|prod s|). Tie: for fresh, randomly perturbed, briefly trained and reset tiny RealNVP/MAF/NSF "
+         "flows (float32 and float64, option grid) and for both samplers' proposals the harness reads the primitives (base "
+         "log-density, transform log|det|, rescaling log-Jacobian, alternative density) from the real torch / numpy objects at "
+         "generated points, sends them as exact rationals to the Lean model and compares what the nessai wrappers return with the "
+         "model's composition (rel. tolerance 1e-4 float32 / 1e-9 float64); the Lean autoregressive layer is run by the driver "
+         "against exact sequential substitution on random rational conditioner tables and against glasflow's MADE layers inside "
+         "real MAFs (forward, log|det|, inverse loop, strict-prefix dependence of the conditioner). The oracle checks on the real "
+         "outputs: inverse(forward(x)) = x, log_prob(sample) = reported log-density, array-level interface = torch model, "
          "backward_pass/draw density = forward_pass/compute_meta_proposal_samples density, 2-d grid integral of the density = 1.",
     note="NOT proved: that the density integrates to one (checked by a 2-d grid integral only), that sum log|s| is the "
-         "log-determinant of the derivative, lawfulness of glasflow's LU/SVD/spline/MADE layers and all floating-point numerics "
-         "(the lawful-transform hypothesis is checked numerically on the generated points). Oracle tolerances scale with the "
-         "floating-point type and the measured local conditioning (response to +-1 ulp input perturbations). Row filters "
-         "(discard_nans, check_prior_bounds) are not modelled.",
-    technique="Lean 4 proof (algebra of lawful transforms, induction over layer stacks) + numeric correspondence on real flows",
+         "log-determinant of the derivative, lawfulness of glasflow's rational-quadratic spline and SVD (Householder) layers, "
+         "batch norm in training mode, and all floating-point numerics (for those the lawful-transform hypothesis is checked "
+         "numerically on the generated points). Oracle tolerances scale with the floating-point type and the measured local "
+         "conditioning (response to a few-ulp input perturbations). Row filters (discard_nans, check_prior_bounds) are not modelled.",
+    technique="Lean 4 proof (algebra of lawful transforms, induction over layer stacks and over the autoregressive sweep loop) "
+              "+ numeric correspondence on real flows",
     ref="5/C08")
 
 TOL_MODEL = {"float32": 1e-4, "float64": 1e-9}
@@ -99,7 +105,19 @@ class Tie:
         outs = ctx.model(self.lines)
         bad = 0
         for line, out, (impl, tol, case) in zip(self.lines, outs, self.items):
-            mo = parse_out(out)
+            if isinstance(impl, tuple) and impl[0] == "ar":
+                parts = out.split(" ")
+                ok = len(parts) == 2 and parts[0].startswith("[")
+                if ok:
+                    got = [float(v) for v in parse_out(parts[0])] + [float(Fraction(parts[1]))]
+                    ok = len(got) == len(impl[1]) and all(abs(a - b) <= tol * (1 + abs(a)) for a, b in zip(got, impl[1]))
+                if not ok:
+                    bad += 1
+                    if bad <= 20:
+                        ctx.disagree("glasflow autoregressive layer output != Lean autoregressive layer on the layer's own scale/shift",
+                                     {"line": line[:400], "model": out[:300], "impl": impl[1], "tol": tol, "case": case})
+                continue
+            mo = out if isinstance(impl, str) else parse_out(out)
             ok = True
             if isinstance(mo, str):
                 ok = impl == mo
@@ -370,6 +388,9 @@ def check_flow(ctx, tie, fm, cfg, state, rng):
         tie.add(f"flow nflow_lp {rat(b[i])} {rat(ld[i])}", float(lp[i]), tm, {"case": case, "i": i, "op": "NFlow.log_prob"})
         tie.add(f"flow nflow_flp {rat(b[i])} {rat(ld[i])}", float(lpf[i]), tm, {"case": case, "i": i, "op": "NFlow.forward_and_log_prob"})
 
+    if cfg["ftype"] == "maf":
+        check_maf_layers(ctx, tie, fm, cfg, state, xt, O, case)
+
     # ---- generation direction, torch level (noise recovered by reseeding the global generator)
     N = n
     with torch.inference_mode():
@@ -541,6 +562,117 @@ def check_flow(ctx, tie, fm, cfg, state, rng):
               "max_abs_logdet": round(float(ld.abs().max()), 4),
               "max_gen_eval_err": float(np.nanmax(np.abs(np64(lp2) - np64(lps))[ok])) if ok.any() else None},
              kind=f"flow:{cfg['ftype']}:{dname}:{state}")
+
+
+# --------------------------------------------------------------------------- autoregressive layer (Lean executable instance)
+def frac_str(f):
+    return str(f.numerator) if f.denominator == 1 else f"{f.numerator}/{f.denominator}"
+
+
+def flist(v):
+    return "[" + ",".join(frac_str(Fraction(t)) for t in v) + "]"
+
+
+def ftable(tab):
+    return "[" + ",".join(flist(r) for r in tab) + "]"
+
+
+def ar_reference(x, S, T):
+    """independent exact reference: one-pass forward of the affine-in-prefix autoregressive layer"""
+    n = len(x)
+    s = [S[i][0] + sum(S[i][j + 1] * x[j] for j in range(i)) for i in range(n)]
+    t = [T[i][0] + sum(T[i][j + 1] * x[j] for j in range(i)) for i in range(n)]
+    J = Fraction(1)
+    for v in s:
+        J *= v
+    return [x[i] * s[i] + t[i] for i in range(n)], s, J
+
+
+def ar_reference_inverse(y, S, T):
+    """independent exact reference: sequential substitution x_0, x_1, ... (not the sweep loop of the model)"""
+    n = len(y)
+    x = []
+    for i in range(n):
+        s = S[i][0] + sum(S[i][j + 1] * x[j] for j in range(i))
+        t = T[i][0] + sum(T[i][j + 1] * x[j] for j in range(i))
+        if s == 0:
+            return None
+        x.append((y[i] - t) / s)
+    return x
+
+
+def ar_selfcheck(ctx, tie):
+    """the Lean autoregressive layer (one-pass forward, sweep-loop inverse) run by the driver on random rational
+    conditioner tables, against exact sequential substitution in Python; dimensions 0..6"""
+    rng = ctx.rng
+    for k in range(ctx.scale(150, 1500)):
+        n = rng.choice([0, 1, 2, 3, 3, 3, 4, 5, 6])
+        q = lambda: Fraction(rng.randint(-6, 6), rng.randint(1, 4))  # noqa
+        x = [q() for _ in range(n)]
+        S = [[q() for _ in range(i + 1)] + [q() for _ in range(n - i)] for i in range(n)]  # entries beyond the prefix are ignored
+        Tt = [[q() for _ in range(n + 1)] for i in range(n)]
+        y, s, J = ar_reference(x, S, Tt)
+        case = {"layer": "ar-model", "n": n, "x": [str(v) for v in x]}
+        if any(v == 0 for v in s):
+            tie.add(f"flow ar fwd {flist(x)} {ftable(S)} {ftable(Tt)}", "err=value", 0.0, case)
+            ctx.case(("ar", k), False, None, kind="ar-model:zero-scale")
+            continue
+        tie.add(f"flow ar fwd {flist(x)} {ftable(S)} {ftable(Tt)}", f"{flist(y)} {frac_str(J)}", 0.0, case)
+        xi = ar_reference_inverse(y, S, Tt)
+        assert xi == x
+        tie.add(f"flow ar inv {flist(y)} {ftable(S)} {ftable(Tt)}", f"{flist(x)} {frac_str(J)}", 0.0, case)
+        ctx.case(("ar", n, k), n >= 2, case if k < 2 else None, kind=f"ar-model:n={n}")
+
+
+def check_maf_layers(ctx, tie, fm, cfg, state, xt, O, case):
+    """tie of the Lean autoregressive layer to glasflow's MaskedAffineAutoregressiveTransform inside a real MAF:
+    (i) the conditioner outputs of feature i do not change when features >= i change (the strict-prefix hypothesis of
+    `autoregressive_lawful`), (ii) forward values and log|det| equal the model's with the layer's own scale / shift at the
+    point, (iii) the layer's inverse loop returns what the model's inverse returns"""
+    torch = T()
+    from glasflow.nflows.transforms.autoregressive import MaskedAffineAutoregressiveTransform
+    m = fm.model
+    dname = cfg["dtype"]
+    tm = TOL_MODEL[dname]
+    eps = float(torch.finfo(getattr(torch, dname)).eps)
+    d = cfg["dims"]
+    u = xt[: cfg.get("nar", 6)]
+    for li, layer in enumerate(m._transform._transforms):
+        if not isinstance(layer, MaskedAffineAutoregressiveTransform):
+            with torch.inference_mode():
+                u = layer.forward(u)[0]
+            continue
+        with torch.inference_mode():
+            params = layer.autoregressive_net(u)
+            us, shift = layer._unconstrained_scale_and_shift(params)
+            scale = layer.scale_activation(us)
+            y, ld = layer.forward(u)
+            xinv, ldi = layer.inverse(y)
+            (Kx,) = sens(lambda t: (layer.inverse(t)[0],), y)
+            # strict-prefix dependence of the conditioner
+            gen = torch.Generator().manual_seed(cfg["seed"] + li)
+            for i in range(d):
+                u2 = u.clone()
+                u2[:, i:] = torch.randn(u[:, i:].shape, generator=gen, dtype=torch.float64).to(u.dtype) * 3.0
+                us2, shift2 = layer._unconstrained_scale_and_shift(layer.autoregressive_net(u2))
+                if not (torch.equal(us2[:, i], us[:, i]) and torch.equal(shift2[:, i], shift[:, i])):
+                    O.fail("MaskedAffineAutoregressiveTransform:conditioner-depends-on-non-prefix",
+                           f"scale/shift of feature {i} changed when features >= {i} were changed (layer {li})",
+                           failing={"point": np64(u)[0].tolist(), "feature": i})
+        okr = np64(torch.isfinite(y).all(dim=1) & torch.isfinite(ld) & torch.isfinite(xinv).all(dim=1)).astype(bool)
+        for r in np.flatnonzero(okr):
+            r = int(r)
+            S = "[" + ",".join(f"[{rat(scale[r, i])}]" for i in range(d)) + "]"
+            Tt = "[" + ",".join(f"[{rat(shift[r, i])}]" for i in range(d)) + "]"
+            xs = "[" + ",".join(rat(v) for v in u[r]) + "]"
+            ys = "[" + ",".join(rat(v) for v in y[r]) + "]"
+            want_f = [float(v) for v in y[r]] + [float(torch.exp(ld[r].double()))]
+            tie.add(f"flow ar fwd {xs} {S} {Tt}", ("ar", want_f), 64 * tm, {"case": case, "op": "MAF layer forward", "layer": li, "row": r})
+            tol_inv = float(np.max(tol_of(np64(Kx)[r], np64(u)[r], eps) / (1 + np.abs(np64(u)[r]))))
+            want_i = [float(v) for v in xinv[r]] + [float(torch.exp(-ldi[r].double()))]
+            tie.add(f"flow ar inv {ys} {S} {Tt}", ("ar", want_i), max(64 * tm, tol_inv), {"case": case, "op": "MAF layer inverse", "layer": li, "row": r})
+        ctx.case(("maf-layer", json.dumps(cfg, sort_keys=True), state, li), True, None, kind=f"ar-real-layer:{dname}")
+        u = y
 
 
 # --------------------------------------------------------------------------- FlowProposal (standard sampler)
@@ -950,7 +1082,9 @@ def correspond(ctx):
                 "scale placed on the flow's own sample cloud + boundary stream (cloud centre, tiny offset, +-4 widths, spline tail "
                 "bound +-5 and the origin when inside the cloud) + the flow's own samples + supplied latent points; proposals: FlowProposal x latent priors x reparameterisations, ImportanceFlowProposal x {logit,None} x clip x "
                 "2-3 levels; non-trivial = some |log det| or rescaling log-Jacobian on the batch exceeds 1e-3")
-    ctx.assume("glasflow transforms are inverse pairs with opposite log-determinants (checked numerically on every batch, not proved)",
+    ctx.assume("glasflow's spline and SVD layers are inverse pairs with opposite log-determinants (checked numerically on every batch, not "
+               "proved; coupling, autoregressive, LU, affine and permutation layers are proved lawful in exact arithmetic)",
+               "MADE conditioners only depend on the strict prefix (checked exactly on the real layers of every MAF case)",
                "Distribution.sample_and_log_prob returns the log_prob of the noise it returns (checked on every batch)",
                "reseeding torch's global generator reproduces the noise a sampling call consumed",
                "the rescaling log-Jacobians returned by the proposals' rescale / inverse_rescale are taken as primitives (C07 covers them)")
@@ -966,9 +1100,11 @@ def correspond(ctx):
         run_flowproposal(ctx, tie, cfg)
     for cfg in importance_cases(ctx):
         run_importance(ctx, tie, cfg)
+    ar_selfcheck(ctx, tie)
     # malformed stream of the protocol itself
     for line, want in (("flow nflow_lp 1/0 2", "bad-op"), ("flow fp_fwd 2 1 1 1", "bad-op"), ("flow ifp_upd 3 0 [1:2] [0]", "none"),
-                       ("flow ifp_draw 1 0 [1:2]", "none"), ("flow ifp_row 0 []", [0.0])):
+                       ("flow ifp_draw 1 0 [1:2]", "none"), ("flow ifp_row 0 []", [0.0]), ("flow ar up [1] [[1]] [[0]]", "bad-op"),
+                       ("flow ar fwd [1] [[0]] [[0]]", "err=value"), ("flow ar fwd [] [] []", "[] 1")):
         tie.add(line, want, 0.0, {"layer": "protocol"})
     tie.flush(ctx)
     ctx.traces = ctx.evaluations
